@@ -63,6 +63,49 @@ def kind_of(b, t):
     return "?"
 
 
+def span_shapes(ck, F):
+    """C26.4: the two label-span accessors return start .. start + <byte length of the name>"""
+    from lib import bits
+    rule = "C26.4"
+    for path, start_field, len_of in (("asm::SymbolData::span", "src_start", "label"), ("ast::Label::span", "start", "name")):
+        b = F.bodies.get(path)
+        if not ck.anchor(rule, path, b):
+            continue
+        try:
+            e = panics._unwrap_var(bits.ret_expr(b))
+        except bits.Unanalysable as ex:
+            ck.fail(rule, path, "return expression not recognised: %s" % ex, "%s:%s" % (b.file, b.line))
+            continue
+        ok = False
+        why = "not a Range literal"
+        if e[0] == "agg" and e[2][0] == "std::ops::Range" and len(e[3]) == 2:
+            st, en = panics._unwrap_var(e[3][0]), panics._unwrap_var(e[3][1])
+            st_ok = st[0] == "field" and st[2] == start_field
+            add_ok = False
+            args = None
+            if en[0] == "call" and (en[1] or "").endswith("::saturating_add"):
+                args = en[2]
+            elif en[0] == "field" and en[1][0] == "bin" and en[1][1] == "AddWithOverflow":
+                args = (en[1][2], en[1][3])
+            if args:
+                a0, a1 = panics._unwrap_var(args[0]), panics._unwrap_var(args[1])
+                len_ok = a1[0] == "call" and ((a1[1] or "").endswith("<impl str>::len") or (a1[1] or "").endswith("String::len")) and ("'%s'" % len_of) in repr(a1[2])
+                add_ok = a0[0] == "field" and a0[2] == start_field and len_ok
+            ok = st_ok and add_ok
+            why = "start=%s end=%s" % (repr(st)[:80], repr(en)[:160])
+        ck.ob(rule, path, ok, "%s returns %s .. %s + %s.len() (byte length): %s" % (path, start_field, start_field, len_of, why), "%s:%s" % (b.file, b.line))
+    ln = F.bodies.get("ast::Label::new")
+    if ck.anchor(rule, "ast::Label::new", ln):
+        good = False
+        for bi, si, s in ln.stmts():
+            if s["k"] == "assign" and s["rv"]["k"] == "agg" and s["rv"].get("adt") == "ast::Label":
+                names = s["rv"]["field_names"]
+                fs = [panics._unwrap_var(ln.expr_of_operand(x)) for x in s["rv"]["fields"]]
+                d = dict(zip(names, fs))
+                good = d.get("start", ("",))[0] == "field" and d["start"][2] == "start" and d.get("name", ("",))[0] == "arg"
+        ck.ob(rule, "Label::new", good, "Label::new stores name and span.start", "src/ast.rs:%s" % ln.line)
+
+
 def run(ck, ctx):
     global FACTS
     F = ctx.F
@@ -113,5 +156,6 @@ def run(ck, ctx):
                     ck.ob("C26.3", "%s#%d" % (key, idx[key]), lab,
                           "label error %s takes its span from Label::span()/SymbolData::span(key): %s" % (kind, lab), "%s:%s" % (b.file, t["line"]))
     ck.floor(rule, "AsmErr::new call sites reachable from assemble*", n, 14)
+    span_shapes(ck, F)
     ck.assume("spans stored in the AST come from the parser (token spans of the same source)")
     ck.assume("link errors carry spans of two different sources (documented TODO in the code); only the no-panic clause is claimed for them")
